@@ -1539,3 +1539,120 @@ Proof.
   exists (firstn 4 f12_prefix). eexists. exists 2. eexists. split; [vm_compute; reflexivity|].
   split; [vm_compute; reflexivity|]. vm_compute. repeat split; discriminate.
 Qed.
+
+(* ---------------------------------------------------------------------------------------- *)
+(* the same serial-read statement on `newest` (what db.get computes), and the stability of a Get
+   result under everything that happens later: together they say that the value a Get returned
+   inside a committed transaction is the value it returns in the serial execution              *)
+Lemma newest_no_cand B k ts :
+  (forall w, In w B -> e_key w = k -> ts < e_ver w) -> newest B k ts = None.
+Proof.
+  intros H. destruct (newest B k ts) as [e|] eqn:E; auto.
+  apply newest_some in E. destruct E as (A & K & V & _). specialize (H _ A K). lia.
+Qed.
+
+Lemma newest_ts A k ts ts' :
+  (forall w, In w A -> e_key w = k -> e_ver w <= ts /\ e_ver w <= ts') -> newest A k ts = newest A k ts'.
+Proof.
+  intros H. unfold newest. f_equal. f_equal. apply filter_ext_in. intros w Hw. unfold cand.
+  destruct (bytes_eqb (e_key w) k) eqn:E; cbn [andb]; auto.
+  apply bytes_eqb_eq in E. destruct (H _ Hw E) as [H1 H2].
+  assert (F1: (e_ver w <=? ts) = true) by (apply N.leb_le; lia).
+  assert (F2: (e_ver w <=? ts') = true) by (apply N.leb_le; lia). now rewrite F1, F2.
+Qed.
+
+Theorem serial_read_eq_newest fx L L1 c L2 k top :
+  ser fx L -> cts_mono L -> reads_below L -> Forall rec_ok L -> Forall rec_api L ->
+  L = L1 ++ c :: L2 -> In k (cr_rd c) -> cr_rts c <= top ->
+  newest (log_writes L) k (cr_rts c) = newest (log_writes L1) k top.
+Proof.
+  intros S Mono Rb Hok Hapi -> Hr Htop. rewrite log_writes_app, newest_app.
+  rewrite Forall_forall in Hok, Hapi. unfold reads_below in Rb. rewrite Forall_forall in Rb.
+  rewrite (newest_no_cand (log_writes (c :: L2))).
+  - rewrite better_none_r. apply newest_ts. intros w Hw Hk. apply log_writes_in in Hw. destruct Hw as (c' & Hc' & Hap & Hw).
+    assert (Hin': In c' (L1 ++ c :: L2)) by (apply in_or_app; now left).
+    destruct (Hapi _ Hin') as [Hv _]. destruct (Hok _ Hin') as [Hkeys _].
+    rewrite (Hv _ Hw). specialize (Hkeys _ Hw). rewrite Hk in Hkeys.
+    assert (Hle: cr_cts c' <= cr_rts c).
+    { eapply ser_before; eauto; [now apply before_in_split|]. unfold logged. now rewrite Hap. }
+    lia.
+  - intros w Hw Hk. apply log_writes_in in Hw. destruct Hw as (c' & Hc' & Hap & Hw).
+    assert (Hin': In c' (L1 ++ c :: L2)) by (apply in_or_app; now right).
+    destruct (Hapi _ Hin') as [Hv _]. rewrite (Hv _ Hw).
+    assert (Hc: cr_rts c < cr_cts c) by (apply Rb; apply in_or_app; right; now left).
+    destruct Hc' as [<-|Hc']; auto.
+    pose proof (Mono _ _ (before_split_after L1 c L2 c' Hc')). lia.
+Qed.
+
+Lemma run_app s L ops1 ops2 :
+  run s L (ops1 ++ ops2) =
+  match run s L ops1 with Some (s1, L1) => run s1 L1 ops2 | None => None end.
+Proof.
+  revert s L. induction ops1 as [|o r IH]; intros s L; cbn [app run]; auto.
+  destruct (step s o); auto.
+Qed.
+
+Lemma run_log_prefix s L ops s' L' : run s L ops = Some (s', L') -> exists L'', L' = L ++ L''.
+Proof.
+  revert s L. induction ops as [|o r IH]; intros s L; cbn [run].
+  - intros [= <- <-]. exists []. now rewrite app_nil_r.
+  - destruct (step s o) as [s1|]; [|discriminate]. intros H. apply IH in H. destruct H as (L2 & ->).
+    exists (commit_rec s o ++ L2). now rewrite app_assoc.
+Qed.
+
+Section Stable.
+  Variables (nk : N) (nl : nat) (next : N) (d : bool).
+  Let i0 := init_sys false d nk nl next.
+
+  (* a Get result never changes afterwards: what db.get returns at timestamp r in a state whose
+     next timestamp is above r is the newest write at or below r of the FINAL write history *)
+  Theorem get_stable ops1 ops2 s1 s2 k r :
+    (0 < nl)%nat -> Forall (fun o => op_api o /\ op_nocompact o) (ops1 ++ ops2) ->
+    exec i0 ops1 0 = (None, s1) -> exec i0 (ops1 ++ ops2) 0 = (None, s2) ->
+    r < s_next s1 ->
+    db_get (s_db s1) k r = newest (s_writes s2) k r.
+  Proof.
+    intros Hnl HP H1 H2 Hr. apply Forall_app in HP as HP'. destruct HP' as [HP1 _].
+    pose proof (exec_history _ _ _ H1) as R1. pose proof (exec_history _ _ _ H2) as R2.
+    rewrite run_app, R1 in R2. apply run_log_prefix in R2 as Hpre. destruct Hpre as (L2 & E).
+    pose proof (exec_reach _ false false d nk nl next _ _ HP1 H1) as X1.
+    pose proof (exec_reach _ false false d nk nl next _ _ HP H2) as X2. fold i0 in X1, X2.
+    apply (xreach_mono _ xop_api_nc) in X1; [|exact (api_nc_onbase)].
+    apply (xreach_mono _ xop_api_nc) in X2; [|exact (api_nc_onbase)].
+    pose proof (reach_get_newest false d nk nl next _ _ k r Hnl X1) as G. cbn [x_base] in G. rewrite G.
+    assert (A1: xreach xop_api false (init_xsys false d nk nl next) (mkX s1 false) (history i0 ops1))
+      by (eapply xreach_mono; [|exact X1]; intros o' [A _]; exact A).
+    assert (A2: xreach xop_api false (init_xsys false d nk nl next) (mkX s2 false) (history i0 (ops1 ++ ops2)))
+      by (eapply xreach_mono; [|exact X2]; intros o' [A _]; exact A).
+    destruct (reach_log _ _ _ _ _ _ _ _ _ A1) as [_ W1]. destruct (reach_log _ _ _ _ _ _ _ _ _ A2) as [_ W2].
+    cbn [x_base] in W1, W2. rewrite W2, E, log_writes_app, <- W1, newest_app.
+    destruct (reach_ts _ _ _ _ _ _ _ _ _ eq_refl A1) as [N1 _]. cbn [x_base] in N1.
+    destruct (reach_ts _ _ _ _ _ _ _ _ _ eq_refl A2) as [_ C2]. rewrite E in C2. apply consec_app in C2. destruct C2 as [_ C2].
+    pose proof (reach_rec_api _ _ _ _ _ _ _ _ A2) as Hapi. rewrite E, Forall_app in Hapi. destruct Hapi as [_ Hapi].
+    rewrite Forall_forall in Hapi.
+    rewrite (newest_no_cand (log_writes L2)); [now rewrite better_none_r|].
+    intros w Hw _. apply log_writes_in in Hw. destruct Hw as (c & Hc & _ & Hw).
+    destruct (Hapi _ Hc) as [V _]. rewrite (V _ Hw). pose proof (consec_in _ _ _ C2 Hc). lia.
+  Qed.
+End Stable.
+
+Theorem serializable_reads_newest nk nl next ops s L1 c L2 k top :
+  Forall op_api ops -> 0 < next ->
+  exec (init_sys false true nk nl next) ops 0 = (None, s) ->
+  history (init_sys false true nk nl next) ops = L1 ++ c :: L2 -> In k (cr_rd c) -> cr_rts c <= top ->
+  newest (s_writes s) k (cr_rts c) = newest (log_writes L1) k top.
+Proof.
+  intros Hapi Hn H E Hr Ht. pose proof (exec_reach op_api false false true nk nl next ops s Hapi H) as R.
+  apply (xreach_mono _ xop_api) in R; [|exact (api_onbase)].
+  destruct (normal_log_facts nk nl next false _ _ Hn R) as (S & Mo & Rb & Ok & Api & _).
+  destruct (reach_log _ _ _ _ _ _ _ _ _ R) as [_ Ew]. cbn [x_base] in Ew. rewrite Ew.
+  eapply serial_read_eq_newest; eauto.
+Qed.
+
+(* forward, non-AllVersions iterators never yield a version above the read timestamp *)
+Theorem iterate_fwd_ver_le s x o seek e :
+  io_all o = false -> io_reverse o = false -> In e (txn_iterate s x o seek) -> e_ver e <= x_read x.
+Proof.
+  intros Ha Hr. unfold txn_iterate, iterate. rewrite Hr. intros H.
+  apply take_valid_sound in H. destruct H as [H _]. apply fwd_items_sound in H; auto. tauto.
+Qed.
